@@ -544,6 +544,7 @@ def verify_wrappers(run):
 
 
 def build(run):
+    run.not_demanded = tuple(NOT_DEMANDED)
     run.assume("A-PY", "A-MSG", "A-LOG")
     plan = [("operation.Op.increment", verify_increment), ("exporter.FldExporter.write_from_scope", verify_resolution),
             ("exporter.FldExporter.write_from_scope.grid", verify_grid_loop),
